@@ -4,12 +4,14 @@ Artefacts: v1-signed APKs built by gen/apkgen with the fixed test keys (gen/keys
 {SHA-1, SHA-256} x {without, with signed attributes} x minSdkVersion {absent (no manifest), 24 (binary manifest written by
 gen/axmlgen)}.  Each shard builds its signed artefact ONCE (DSA signatures are randomised) and enumerates faults on those
 fixed bytes; a witness carries the PKCS#7 bytes so a replay sees the identical artefact.
-Faults (single byte substitutions, everything else untouched):
-  * every byte of META-INF/CERT.SF x all 255 other values
-  * every byte of the SignerInfo signature value x all 255 other values
-  * every byte of the signed attributes ([0] tag, length, both attributes) x {^01, ^80, 00, ff}
-  * every byte of the SignerInfo issuerAndSerialNumber x {^01, ^80, 00, ff}
-  (quick: the 255-value alphabet on the minSdk-absent artefacts, {^01,^80,00,ff} on the minSdk-24 ones; thorough: 255 on all)
+Faults (single byte substitutions, everything else untouched), fault sites = every byte of META-INF/CERT.SF, of the
+SignerInfo signature value, of the signed attributes ([0] tag, length, both attributes) and of issuerAndSerialNumber:
+  quick     .SF bytes x all 255 other values on ONE artefact per key type (<key>/sha256/no signed attributes/minSdk absent:
+            3 artefacts); every other site of every one of the 24 artefacts (incl. the .SF of the other 21) x the 8-value
+            alphabet E8 = {b^01, b^02, b^40, b^80, 00, 7f, ff, ~b} (values equal to b or to each other dropped)
+  thorough  .SF bytes and signature-value bytes x all 255 other values on all 24 artefacts; signed attributes and
+            issuer/serial x E8
+The number of sites and of mutants per alphabet is counted and checked against sites x 255 in finalize().
 driven through the REAL APK.get_certificate_der on a real APK object whose get_file() is served from memory (seam below the
 zip layer: one zip parse per shard instead of one per mutant); one value (^01) per fault site is ALSO pushed through the full
 path (zip rebuilt by stdlib zipfile -> APK(raw) -> get_certificate_der, get_certificates_v1) and both paths must agree.
@@ -27,10 +29,12 @@ from mc.core import Acc
 
 PROPERTY = "C32"
 LEVEL = "fault_enumeration"
-RULE = ("24 v1-signed artefacts (3 key types x 2 digests x signed attributes y/n x minSdk absent/24) x {every .SF byte and every "
-        "signature byte x 255 values; every signed-attribute and issuer/serial byte x 4 values}; every mutant differs from the valid "
-        "artefact in exactly one byte (distinct by construction); + one value per site through the full zip path; + up to 13 structural "
-        "variants x 3 minSdk values per key/digest/attribute combination")
+RULE = ("24 v1-signed artefacts (3 key types x 2 digests x signed attributes y/n x minSdk absent/24); fault sites = every byte of the "
+        ".SF, the signature value, the signed attributes, issuer+serial; quick: .SF x 255 values on 3 artefacts (one per key type) and "
+        "the 8-value alphabet {^01,^02,^40,^80,00,7f,ff,~b} on every other site of all artefacts; thorough: .SF and signature x 255 on "
+        "all artefacts; every mutant differs from the valid artefact in exactly one byte (distinct by construction); + one value per "
+        "site through the full zip path; + 11 (13 with signed attributes) structural variants x minSdk {absent, 23, 24} per "
+        "key/digest/attribute combination")
 ASSUMPTIONS = ["gen/apkgen builds the PKCS#7 SignedData with asn1crypto and signs with `cryptography` (the same libraries androguard "
                "parses/verifies with; the container, the JAR files and the fault injection are independent)",
                "the in-memory get_file seam is faithful: bound to the full zip path by one value per fault site (disagreement is a "
@@ -41,9 +45,10 @@ MANIFEST = {
     "engine": "E4-faults",
     "technique": "exhaustive single-byte fault enumeration on generated v1 signatures + structural signer/certificate variants",
     "text": "For every key type, digest, signed-attribute and minSdk combination a validly signed APK must yield exactly the "
-            "signer's certificate, and every single-byte substitution of the .SF (255 values per byte), of the signature value (255), "
-            "of the signed attributes and of the issuer/serial reference (4 values per byte) as well as every listed structural "
-            "forgery must yield no certificate at all. Complete for the generated artefacts.",
+            "signer's certificate, and every enumerated single-byte substitution of the .SF, the signature value, the signed attributes "
+            "and the issuer/serial reference (quick: 255 values per .SF byte on one artefact per key type, 8 values per byte elsewhere; "
+            "thorough: 255 values per .SF and signature byte everywhere) as well as every listed structural forgery must yield no "
+            "certificate at all. Complete for the stated sites x alphabets of the generated artefacts.",
     "note": "Trusted: asn1crypto/cryptography for building the artefacts, stdlib zipfile. RSA/ECDSA artefacts are reproducible; DSA "
             "ones are not, witnesses carry the bytes.",
 }
@@ -52,9 +57,15 @@ KINDS = ["rsa", "ec", "dsa"]
 ALGS = ["sha1", "sha256"]
 OTHER = {"rsa": "rsa2", "ec": "ec2", "dsa": "dsa2"}
 OTHERTYPE = {"rsa": "ec", "ec": "dsa", "dsa": "rsa"}
-HEAVY_PARTS = 8
-FOUR = "4"
+HEAVY_PARTS_QUICK = 12
+HEAVY_PARTS_THOROUGH = 8
+EIGHT = "8"
 ALL = "255"
+
+
+def heavy_quick(cfg):
+    """the one artefact per key type whose .SF gets the 255-value alphabet in the quick tier"""
+    return cfg[1] == "sha256" and cfg[2] is False and cfg[3] is None
 
 _refused = None
 
@@ -170,7 +181,7 @@ def values(orig, alphabet):
     if alphabet == ALL:
         return [v for v in range(256) if v != orig]
     out = []
-    for v in (orig ^ 0x01, orig ^ 0x80, 0x00, 0xFF):
+    for v in (orig ^ 0x01, orig ^ 0x02, orig ^ 0x40, orig ^ 0x80, 0x00, 0x7F, 0xFF, orig ^ 0xFF):
         if v != orig and v not in out:
             out.append(v)
     return out
@@ -388,11 +399,13 @@ def shards(ctx):
     sh = []
     cfgs = configs()
     for i, cfg in enumerate(cfgs):
-        heavy = ctx.thorough or cfg[3] is None
-        if heavy:
-            sh += [("bytes", i, p, HEAVY_PARTS, ALL) for p in range(HEAVY_PARTS)]
+        # ("bytes", artefact, part, parts, alphabet for .SF bytes, alphabet for signature bytes); attributes / sid: always E8
+        if ctx.thorough:
+            sh += [("bytes", i, p, HEAVY_PARTS_THOROUGH, ALL, ALL) for p in range(HEAVY_PARTS_THOROUGH)]
+        elif heavy_quick(cfg):
+            sh += [("bytes", i, p, HEAVY_PARTS_QUICK, ALL, EIGHT) for p in range(HEAVY_PARTS_QUICK)]
         else:
-            sh.append(("bytes", i, 0, 1, FOUR))
+            sh.append(("bytes", i, 0, 1, EIGHT, EIGHT))
     sh += [("bind", i) for i in range(len(cfgs))]
     bad = {(k, a) for k, a, _ in refused()}
     sh += [("struct", k, a, at) for k in KINDS for a in ALGS if (k, a) not in bad for at in (False, True)]
@@ -404,11 +417,16 @@ def space(ctx):
     art = build_art(("rsa", "sha256", True, None))
     _, f = sites(art)
     return {"artefacts": [list(c) for c in configs()], "refused_by_cryptography": refused(),
-            "byte_alphabet": {"sf": "255 (minSdk absent%s) / 4" % (" and 24" if ctx.thorough else ""), "signature": "same",
-                              "signed-attrs": "{^01,^80,00,ff}", "sid": "{^01,^80,00,ff}"},
+            "E8": "{b^01, b^02, b^40, b^80, 00, 7f, ff, ~b} minus b, duplicates dropped",
+            "byte_alphabet": ({"sf": "all 255 other values, all artefacts", "signature": "all 255 other values, all artefacts",
+                               "signed-attrs": "E8", "sid": "E8"} if ctx.thorough else
+                              {"sf": "all 255 other values on the 3 artefacts %r; E8 on the other 21"
+                                     % [list(c) for c in configs() if heavy_quick(c)],
+                               "signature": "E8", "signed-attrs": "E8", "sid": "E8"}),
             "example_sizes(rsa/sha256/attrs)": {"sf": len(art.sf), "pkcs7": len(art.p7), "signature": f["signature"][1],
                                                 "signed-attrs": f["signed-attrs"][1], "sid": f["sid"][1]},
-            "full_path_binding": "every fault site x value ^01 through zipfile -> APK(raw)",
+            "full_path_binding": "every fault site of every artefact x value ^01 through zipfile -> APK(raw)",
+            "structural_variants_built": "11 per (key, digest) without signed attributes, 13 with, x minSdk %r" % (STRUCT_MINSDK,),
             "structural_variants": sorted(variants("rsa", "sha256", True)) + ["second-block-corrupt"],
             "structural_minsdk": STRUCT_MINSDK, "cryptography_deterministic": {"rsa": True, "ec": "RFC 6979 if available", "dsa": False},
             "keys": G.KEY_NAMES}
@@ -423,6 +441,7 @@ def run_shard(ctx, shard):
                 res, cls = judge_struct(kind, alg, attrs, minsdk, name)
                 acc.case(nontrivial=("struct", kind, alg, attrs, minsdk, name), outcome=("struct", name, cls))
                 acc.count("structural_variants")
+                acc.count("structural_variants_minsdk_%s" % minsdk)
                 if name.startswith("two-si"):
                     acc.count("observed:%s:minsdk%s:%s" % (name, ">=24" if (minsdk or 0) >= 24 else "<24", cls))
                 for key, msg in res:
@@ -456,11 +475,14 @@ def run_shard(ctx, shard):
             if r2:
                 acc.violation(r2[0], dict(wbase, mut=list(mut), path="full"), r2[1])
         return acc
-    _, _, part, nparts, alphabet = shard
+    _, _, part, nparts, alpha_sf, alpha_sig = shard
     for field, off in s[part::nparts]:
         orig = art.sf[off] if field == "sf" else art.p7[f[field][0] + off]
-        for val in values(orig, alphabet if field in ("sf", "signature") else FOUR):
+        alphabet = {"sf": alpha_sf, "signature": alpha_sig}.get(field, EIGHT)
+        acc.count("sites_%s_x%s" % (field, alphabet))
+        for val in values(orig, alphabet):
             mut = (field, off, val)
+            acc.count("mutants_%s_x%s" % (field, alphabet))
             r, cls = judge_mut(art, f, a, store, mut, "fast")
             acc.n += 1
             acc.nt_disjoint += 1
@@ -468,7 +490,7 @@ def run_shard(ctx, shard):
             acc.count("mutants_" + field)
             if r:
                 acc.violation(r[0], dict(wbase, mut=list(mut), path="fast"), r[1])
-    if part == 0 and cfg[3] is None:
+    if part == 0 and heavy_quick(cfg):
         acc.sample({"artefact": describe(art), "mutant": ["sf", 0, art.sf[0] ^ 1], "sf_bytes": len(art.sf), "pkcs7_bytes": len(art.p7)})
     return acc
 
@@ -496,6 +518,21 @@ def finalize(ctx, acc):
     for k in ("mutants_sf", "mutants_signature", "mutants_signed-attrs", "mutants_sid", "full_path_mutants", "structural_variants"):
         if not acc.extra.get(k) and not acc.extra.get("shards_skipped_base_rejected"):
             acc.harness_error("vacuous: counter %s is zero" % k)
+    if not acc.extra.get("shards_skipped_base_rejected"):
+        for fld in ("sf", "signature"):
+            if acc.extra.get("mutants_%s_x255" % fld, 0) != 255 * acc.extra.get("sites_%s_x255" % fld, 0):
+                acc.harness_error("%s: %d mutants for %d sites under the 255-value alphabet" % (
+                    fld, acc.extra.get("mutants_%s_x255" % fld, 0), acc.extra.get("sites_%s_x255" % fld, 0)))
+        if not acc.extra.get("sites_sf_x255"):
+            acc.harness_error("no .SF site was enumerated with the 255-value alphabet")
+        if ctx.thorough and (acc.extra.get("sites_sf_x8") or acc.extra.get("sites_signature_x8")):
+            acc.harness_error("thorough tier must use the 255-value alphabet on every .SF and signature byte")
+    nstruct = sum((13 if at else 11) for k, a, at, ms in configs() if ms is None) * len(STRUCT_MINSDK)
+    if acc.extra.get("structural_variants") != nstruct:
+        acc.harness_error("structural variants built: %r, stated: %d" % (acc.extra.get("structural_variants"), nstruct))
+    for ms in STRUCT_MINSDK:
+        if acc.extra.get("structural_variants_minsdk_%s" % ms) != nstruct // len(STRUCT_MINSDK):
+            acc.harness_error("structural variants at minSdk=%s: %r" % (ms, acc.extra.get("structural_variants_minsdk_%s" % ms)))
     if len(acc.outcomes) < 8 and not acc.extra.get("shards_skipped_base_rejected"):
         acc.harness_error("vacuous: only %d distinct (field, reaction) classes" % len(acc.outcomes))
     if n < 8:
